@@ -214,7 +214,7 @@ def run(tier: str, seed: int) -> int:
             continue
         if ("error" in rv) != ("error" in rc):
             desc = (rv.get("error") or rc.get("error"))["description"]
-            if "Timeout during evaluating constexpr" in desc:
+            if common.load_timeout(desc):
                 chk.bump("constexpr_timeouts_skipped")
                 continue
             failures.append({"what": "compiles in one output mode only: " + desc[:200], "src": src, "opts": base})
